@@ -40,7 +40,7 @@ def committed(c):
 def agree(c, o, e): return o.split(" !")[0] == e
 def monitor(c, o):
     f = fields(c)
-    what = f"sealed segment {f.get('sg')}, {dict(e='index.eidx', p='partition.pidx', s='stream.sidx')[f.get('file', 'e')]} {f.get('st')} (layout {f.get('lay')})"
+    what = f"sealed segment {f.get('sg')}, {dict(e='index.eidx', p='partition.pidx', s='stream.sidx', d='next segment directory')[f.get('file', 'e')]} {f.get('st')} (layout {f.get('lay')})"
     if o.startswith("open=err"):
         return ("open", f"the database does not reopen: {o[9:120]} [{what}]")
     m = re.match(r"open=ok id=(\d+)/(\d+) st=(\d+)/(\d+) pt=(\d+)/(\d+) oth=(\S+)(?: !(.*))?$", o)
@@ -68,6 +68,7 @@ def coq_goal(c, e):
         if rec[0] == "E": rl.append(f"REvent (mkEvent {x[0]} 0 {x[1]} {x[5]} {'true' if x[6] == '1' else 'false'} {x[2]} {x[3]} {x[4]})")
         else: rl.append(f"RCommit {x[0]} {x[1]}")
     h, r, t = f["lay"].split(":")
+    if f["file"] == "d": return None
     st = {"missing": "FMissing", "empty": "(FPrefix 0)", "complete": "FComplete"}.get(f["st"]) or f"(FPrefix {f['st'][1:]})"
     full = "(mkLay 20 20 20) FComplete"
     mine = f"(mkLay {h} {r} {t}) {st}"
@@ -80,7 +81,7 @@ def distribution(pairs):
     for c, o in pairs:
         f = fields(c)
         st = f.get("st", "?")
-        if st.startswith("p"):
+        if st.startswith("p") and st[1:].isdigit():
             h, r, t = (int(x) for x in f["lay"].split(":")); p = int(st[1:])
             st = "prefix<header" if p < h else "prefix=header" if p == h else "prefix<records" if p < r else "prefix=records" if p == r else "prefix<values"
         k = f.get("file", "?") + ":" + st
